@@ -284,4 +284,146 @@ theorem Counted.exec {s : Sys} (hc : Counted s) (sched : List Choice) : Counted 
   | nil => exact hc
   | cons c cs ih => exact ih (hc.step c)
 
+/-! ### the scanner-level implicit-logging switch -/
+
+def Flag.run (f : Flag) (es : List LEvent) : Flag := es.foldl Flag.step f
+
+theorem flagsAt_append (f : Flag) (a b : List LEvent) : flagsAt f (a ++ b) = flagsAt f a ++ flagsAt (f.run a) b := by
+  induction a generalizing f with
+  | nil => rfl
+  | cons e es ih =>
+    cases e <;> simp [flagsAt, Flag.run, Flag.step, ih] <;> rfl
+
+/-- the database is open and the ECU object carries the value the scanner asked for -/
+def Flag.Synced (f : Flag) : Prop := f.db = true ∧ f.ecu = some f.stored
+
+theorem Flag.Synced.step {f : Flag} (h : f.Synced) (e : LEvent) (he : e ≠ .createEcu) : (f.step e).Synced := by
+  obtain ⟨h1, h2⟩ := h
+  cases e with
+  | createEcu => exact absurd rfl he
+  | set v => simp [Flag.step, Flag.Synced, h1, h2]
+  | openDb => simp [Flag.step, Flag.Synced, h2]
+  | apply => simp [Flag.step, Flag.Synced, h1, h2]
+  | request => exact ⟨h1, h2⟩
+
+theorem flagsAt_synced (f : Flag) (h : f.Synced) (es : List LEvent) (hno : LEvent.createEcu ∉ es) :
+    ∀ p ∈ flagsAt f es, p.1 = p.2 := by
+  induction es generalizing f with
+  | nil => simp [flagsAt]
+  | cons e es ih =>
+    have hne : e ≠ .createEcu := fun hx => hno (by simp [hx])
+    have hno' : LEvent.createEcu ∉ es := fun hx => hno (by simp [hx])
+    cases e with
+    | request =>
+      intro p hp
+      simp only [flagsAt, List.mem_cons] at hp
+      rcases hp with hp | hp
+      · subst hp; simp [h.2]
+      · exact ih f h hno' p hp
+    | createEcu => exact absurd rfl hne
+    | set v => simpa [flagsAt] using ih _ (h.step (.set v) (by simp)) hno'
+    | openDb => simpa [flagsAt] using ih _ (h.step .openDb (by simp)) hno'
+    | apply => simpa [flagsAt] using ih _ (h.step .apply (by simp)) hno'
+
+/-- assignments only: no request is made, the database flag is kept -/
+theorem sets_only (f : Flag) (es : List LEvent) (h : ∀ e ∈ es, ∃ v, e = .set v) :
+    flagsAt f es = [] ∧ (f.run es).db = f.db ∧ (f.ecu = none → (f.run es).ecu = none) := by
+  induction es generalizing f with
+  | nil => simp [flagsAt, Flag.run]
+  | cons e es ih =>
+    obtain ⟨v, hv⟩ := h e (by simp)
+    subst hv
+    have := ih (f.step (.set v)) (fun e he => h e (by simp [he]))
+    refine ⟨by simpa [flagsAt] using this.1, by simpa [Flag.run, Flag.step] using this.2.1, ?_⟩
+    intro hn
+    have h3 := this.2.2 (by simp [Flag.step, hn])
+    simpa [Flag.run] using h3
+
+theorem Flag.Synced.run {f : Flag} (h : f.Synced) (es : List LEvent) (hno : LEvent.createEcu ∉ es) : (f.run es).Synced := by
+  induction es generalizing f with
+  | nil => exact h
+  | cons e es ih =>
+    have hne : e ≠ .createEcu := fun hx => hno (by simp [hx])
+    exact ih (h.step e hne) (fun hx => hno (by simp [hx]))
+
+theorem tokenEvents_no_create (ts : List String) (h : ts.contains "create-ecu" = false) :
+    LEvent.createEcu ∉ tokenEvents ts := by
+  induction ts with
+  | nil => simp [tokenEvents]
+  | cons t ts ih =>
+    simp only [List.contains_cons, Bool.or_eq_false_iff] at h
+    have ht : t ≠ "create-ecu" := by
+      intro hx; subst hx; simp at h
+    have := ih h.2
+    simp only [tokenEvents, ht, if_false, List.mem_append]
+    rintro (hx | hx)
+    · split at hx
+      · simp at hx
+      · split at hx <;> simp at hx
+    · exact this hx
+
+/-- after the ECU object exists (database open): a rest that passes `appliedAfterCreate` makes no unsynced request and ends
+    synced -/
+theorem appliedAfterCreate_sound (ts : List String) (h : appliedAfterCreate ts = true) (f : Flag) (hdb : f.db = true)
+    (hecu : f.ecu.isSome = true) :
+    (∀ p ∈ flagsAt f (tokenEvents ts), p.1 = p.2) ∧ (f.run (tokenEvents ts)).Synced := by
+  induction ts generalizing f with
+  | nil => simp [appliedAfterCreate] at h
+  | cons t r ih =>
+    simp only [appliedAfterCreate] at h
+    by_cases h1 : t = "apply"
+    · subst h1
+      simp only [if_true, Bool.not_eq_true'] at h
+      have hno := tokenEvents_no_create r h
+      obtain ⟨v, hv⟩ := Option.isSome_iff_exists.mp hecu
+      have hs : (f.step .apply).Synced := by simp [Flag.step, Flag.Synced, hdb, hv]
+      have he : tokenEvents ("apply" :: r) = .apply :: tokenEvents r := by simp [tokenEvents]
+      rw [he]
+      refine ⟨?_, ?_⟩
+      · simpa [flagsAt] using flagsAt_synced _ hs _ hno
+      · simpa [Flag.run] using hs.run _ hno
+    · simp only [h1, if_false] at h
+      by_cases h2 : t = "request"
+      · simp [h2] at h
+      · simp only [h2, if_false] at h
+        by_cases h3 : t = "create-ecu"
+        · subst h3
+          have he : tokenEvents ("create-ecu" :: r) = .createEcu :: tokenEvents r := by simp [tokenEvents]
+          rw [he]
+          have := ih h (f.step .createEcu) (by simp [Flag.step, hdb]) (by simp [Flag.step])
+          exact ⟨by simpa [flagsAt] using this.1, by simpa [Flag.run] using this.2⟩
+        · have he : tokenEvents (t :: r) = tokenEvents r := by simp [tokenEvents, h1, h2, h3]
+          rw [he]
+          exact ih h f hdb hecu
+
+/-- a statement sequence that passes `appliedBeforeRequest`, run with the database open and no ECU object yet: every request
+    in it uses the value the scanner asked for, and it ends synced -/
+theorem applied_tokens (ts : List String) (h : appliedBeforeRequest ts = true) (f : Flag) (hdb : f.db = true)
+    (hecu : f.ecu = none) :
+    (∀ p ∈ flagsAt f (tokenEvents ts), p.1 = p.2) ∧ (f.run (tokenEvents ts)).Synced := by
+  induction ts generalizing f with
+  | nil => simp [appliedBeforeRequest] at h
+  | cons t r ih =>
+    simp only [appliedBeforeRequest] at h
+    by_cases h1 : t = "create-ecu"
+    · subst h1
+      simp only [if_true] at h
+      have he : tokenEvents ("create-ecu" :: r) = .createEcu :: tokenEvents r := by simp [tokenEvents]
+      rw [he]
+      have := appliedAfterCreate_sound r h (f.step .createEcu) (by simp [Flag.step, hdb]) (by simp [Flag.step])
+      exact ⟨by simpa [flagsAt] using this.1, by simpa [Flag.run] using this.2⟩
+    · simp only [h1, if_false] at h
+      by_cases h2 : t = "request"
+      · simp [h2] at h
+      · simp only [h2, if_false] at h
+        by_cases h3 : t = "apply"
+        · subst h3
+          have he : tokenEvents ("apply" :: r) = .apply :: tokenEvents r := by simp [tokenEvents]
+          rw [he]
+          have := ih h (f.step .apply) (by simp [Flag.step, hdb]) (by simp [Flag.step, hecu])
+          exact ⟨by simpa [flagsAt] using this.1, by simpa [Flag.run] using this.2⟩
+        · have he : tokenEvents (t :: r) = tokenEvents r := by simp [tokenEvents, h1, h2, h3]
+          rw [he]
+          exact ih h f hdb hecu
+
 end Gallia.DbLog
